@@ -706,6 +706,17 @@ _FORMULAS = [  # (name, file, fn, which `fn <name>` in the file, anchor regex, w
     ("ln.grow", "float/src/log.rs", "ln_internal", 0, r"work_precision \+=", 0, ";"),
     ("ln.stop_test", "float/src/log.rs", "ln_internal", 0, r"if increase\.", 0, "{"),
     ("sub_ulp.exponent", "float/src/fbig.rs", "sub_ulp", 0, r"exponent: self", 0, "}"),
+    # round 6: the zero-operand arms of the four FBig +/- helpers (mirrored by fAddSub; repaired by /repo 164990d: the other
+    # operand is rounded to the max context) -- a source without the rounding has no such statement (MISSING)
+    ("add.val_val.zero_lhs", "float/src/add.rs", "add_val_val", 0, r"context\.repr_round\(rhs\.repr\)\.value\(\)", 0, "}"),
+    ("add.val_val.zero_rhs", "float/src/add.rs", "add_val_val", 0, r"context\.repr_round\(lhs\.repr\)\.value\(\)", 0, "}"),
+    ("add.val_ref.zero_lhs", "float/src/add.rs", "add_val_ref", 0, r"context\.repr_round\(repr\)\.value\(\)", 0, "}"),
+    ("add.val_ref.zero_rhs", "float/src/add.rs", "add_val_ref", 0, r"context\.repr_round\(lhs\.repr\)\.value\(\)", 0, "}"),
+    ("add.ref_val.zero_lhs", "float/src/add.rs", "add_ref_val", 0, r"context\.repr_round\(rhs\.repr\)\.value\(\)", 0, "}"),
+    ("add.ref_val.zero_rhs", "float/src/add.rs", "add_ref_val", 0, r"context\.repr_round_ref\(&lhs\.repr\)\.value\(\)", 0, "}"),
+    ("add.ref_ref.zero_lhs", "float/src/add.rs", "add_ref_ref", 0, r"context\.repr_round\(repr\)\.value\(\)", 0, "}"),
+    ("add.ref_ref.zero_rhs", "float/src/add.rs", "add_ref_ref", 0, r"context\.repr_round_ref\(&lhs\.repr\)\.value\(\)", 0, "}"),
+    ("add.max_context", "float/src/add.rs", "add_val_val", 0, r"let context = Context::max", 0, ";"),
 ]
 
 def _fn_body(text, fn, nth):
@@ -812,7 +823,13 @@ def observe(raw, jobs=JOBS, per_case_timeout=60):
     try:
         heavy = [(i, op, args) for i, (op, args) in enumerate(raw) if _heavy(op, args)]
         light = [(i, op, args) for i, (op, args) in enumerate(raw) if not _heavy(op, args)]
-        chunks = [heavy[k:k + 4] for k in range(0, len(heavy), 4)]
+        # round 6: the very heavy ones (|exponent| >= 10^6: ln / powf of B^(+-2^24)-sized operands cost ~20 s CPU each in the debug
+        # harness) get a file -- hence a watchdog budget -- of their own: four of them in one file overran the file's budget at
+        # load average 130 and were all reported `hang` (thorough run of 03:10 UTC; alone the case answers in 20 s)
+        vheavy = [h for h in heavy if any(a.startswith("f:") and abs(int(a.split(":")[3])) >= 10 ** 6 for a in h[2])]
+        vset = set(h[0] for h in vheavy)
+        heavy = [h for h in heavy if h[0] not in vset]
+        chunks = [[h] for h in vheavy] + [heavy[k:k + 4] for k in range(0, len(heavy), 4)]
         per = max(50, (len(light) + jobs - 1) // jobs)
         chunks += [light[k:k + per] for k in range(0, len(light), per)]
 
@@ -888,7 +905,7 @@ def generate(rng, tier):
     probes = load_raw(".probe")
     yield from with_claims(probes, probe(probes))
     raw = load_raw(".rawcase") + list(raw_cases(rng, tier))
-    yield from with_claims(raw, observe(raw, per_case_timeout=60 if tier == "quick" else 300))
+    yield from with_claims(raw, observe(raw, per_case_timeout=60 if tier == "quick" else 600))
 
 def judge(c, ri, rm):
     """property-level judge for a drifting MIRROR: the mirrored algorithm (the powi loop of Props/C11Powi, or the
@@ -1129,6 +1146,28 @@ THEOREMS = [
     "Dashu.Props.C11Series.expLoop_state",
     "Dashu.Props.C11Series.iacothLoop_step_bound",
     "Dashu.Props.C11Series.sum_add_keeps_pow",
+    "Dashu.Props.C11Series.sum_add_error",
+    "Dashu.Props.C11Series.expSum_error",
+    "Dashu.Props.C11Series.expPartial_eq",
+    "Dashu.Props.C11Series.expLoop_result",
+    "Dashu.Props.C11Series.expLoop_result_error",
+    "Dashu.Props.C11Series.fAddSub_zero_operand",
+    "Dashu.Props.C11Series.fAddSub_zero_fits",
+    "Dashu.Props.C11Series.iacothTerms_error",
+    "Dashu.Props.C11Series.iacothStates_eq",
+    "Dashu.Props.C11Series.iacothSum_error",
+    "Dashu.Props.C11Series.iacothLoop_result",
+    "Dashu.Props.C11Series.iacothLoop_result_error",
+    "Dashu.Props.C11Series.lnLoop_result",
+    "Dashu.Props.C11Series.lnLoop_result_error",
+    "Dashu.Props.C11Series.expPartial_encloses_exp",
+    "Dashu.Props.C11Series.expLoop_result_vs_exp",
+    "Dashu.Props.C11Series.stop_test_value",
+    "Dashu.Props.C11Series.expLoop_stop",
+    "Dashu.Props.C11Series.expLoop_stage_error",
+    "Dashu.Props.C11Series.powfBody_exact_only_base_one",
+    "Dashu.Props.C11Series.powfBody_base_one",
+    "Dashu.Props.C11Series.powfBody_exact_is_exact",
     "Dashu.Props.C11Gen.seriesGuardDigits_gen",
     "Dashu.Props.C11Gen.powGuardDigits_gen",
     "Dashu.Props.C11Gen.expN_gen",
@@ -1197,8 +1236,19 @@ FRONTIER = ["that the certificate succeeds on every input (i.e. that the heurist
             "fuel 10^6 is reported as mirror-fuel, never seen",
             "error propagation: proved for one stage of the Maclaurin loop (expStage_error) and for the TERMS the loop forms "
             "(expTerms_error: term k = r^k/k! up to k relative errors B^(1-w)) and for the final powering stage "
-            "(powiNonnegF_value + C11Powi.powi_nonneg_error); NOT proved for the accumulated partial SUM (needs the "
-            "contract of + for a (p+1)-digit operand in the far-apart branch) nor for ln_internal / iacoth",
+            "(powiNonnegF_value + C11Powi.powi_nonneg_error); round 6: PROVED for `sum += increase` (sum_add_error: two relative "
+            "errors B^(1-P), operands of any length, all four branches of repr_add_large_small) and for the accumulated partial "
+            "SUM of the Maclaurin loop on its scaled branch (expSum_error / expLoop_result_error: a returned (sum, k) is "
+            "sum_{j<k} r^j/j! up to 2(k-2)+2 relative errors B^(1-w), for r > 0) and for the loop of iacoth (iacothTerms_error, "
+            "iacothSum_error, iacothLoop_result_error: a returned (sum, k = 2j+3) is sum_{l<=j} inv*inv2^l/(2l+1) up to 2j+4 errors, "
+            "relative to the values inv, inv2 the loop holds, w >= 2) and, the recursion being the same, for the atanh loop of "
+            "ln_internal with z > 0 (lnLoop_result_error). NOT proved: the same chain for the unscaled exp_m1 branch with x < 0 "
+            "and for ln_internal when z < 0 (all terms negative: the proofs assume positive operands), the links "
+            "inv ~ 1/n, inv2 ~ inv^2 (fSqr's pre-shrink needs a digit bound on the quotient). Rounding + truncation ARE composed "
+            "for the Maclaurin loop (expLoop_result_vs_exp: |sum - exp r| <= 2K eps exp r + 2 r^k/k! against Mathlib's Real.exp, "
+            "K = 2(k-2)+2) and with the stop test (expLoop_stage_error: |sum - exp r| <= 2K eps exp r + 4 B^-w sum, under DlbSound, "
+            "2K eps <= 1, k eps <= 1/2); NOT composed: that stage bound with the error of the reduction x = s ln B + r (ln_base, "
+            "div_rem_euclid, r >> n) and with the powering error (C11Powi) into one bound on exp_internal's working value",
             "Tie A does not cover the statements that are wholly inside an f32 estimate (no_scaling, too_large, int_digits, "
             "powf arg_digits / ln_base_ub / arg_log2, ln's `s` from log2_bounds): they are fields of the oracle Est, replicated "
             "bit-exactly in Driver/TransEst.lean and tied by text (tie.formula) and by the digit-for-digit run only",
@@ -1213,12 +1263,13 @@ FRONTIER = ["that the certificate succeeds on every input (i.e. that the heurist
             "directed modes the clause is FALSE for the code (counterexample theorems, recorded finding); for exp / exp_m1 / ln / "
             "ln_1p / powf it is carried by the certificate theorems (checked*_sound: accept => within 1 ulp) per input only. "
             "(b) `Exact only if exact`: entry-guard theorems + expFull_exact_only_zero / lnFull_exact_only_shortcut on the mirror; "
-            "powi: per input through the certificate (certPowi_decided); powf: see the next entry. (c) `unlimited precision is "
+            "powi: per input through the certificate (certPowi_decided); powf: powfBody_exact_only_base_one (see the last entry). (c) `unlimited precision is "
             "refused by panic`: exp_unlimited, ln_unlimited, powf_unlimited, powi_neg_unlimited; that powi with a NON-negative "
             "exponent at unlimited precision answers exactly is checked per case (exact rational power), no theorem about the "
             "mirrored loop at p = 0",
-            "powf: no theorem that the mirrored flag is Exact only for an exact result (the chain ends Exact only when the rounded "
-            "product y*ln x is zero, i.e. for base 1; not proved)"]
+            "powf, Exact flag: PROVED on the mirror in round 6 (C11Series.powfBody_exact_only_base_one, powfBody_base_one, "
+            "powfBody_exact_is_exact: a result flagged Exact has base 1 and is 1 = 1^y); this is about powfBody (behind the entry "
+            "guards y = 0, y = 1, base = 0 of Props/C11), tied to the code per case"]
 RULE = ("raw cases = entry-guard table (precision 0, +-inf, negative base, exact shortcuts; every base) + "
         "exp/exp_m1 arguments {ordinary, +-B^-k down to B^-1000 and next to 0, small integers and reciprocals, up to 1e18 "
         "(exp), B^-1000-sized} + ln arguments {1 +- B^-k, ordinary, integers, powers of the base, reciprocals, B^+-5000} + ln_1p "
@@ -1229,7 +1280,7 @@ RULE = ("raw cases = entry-guard table (precision 0, +-inf, negative base, exact
         "(+1000, 3000 thorough) x {FBig method + Context method (all forms), Context method on an over-long operand}. "
         "+ exp at the edge of the exponent range (both `exponent is too large` sites and the last arguments below them) + "
         "precisions where pow_guard_digits.max(n+2) takes its second arm (bases 2, 3; p in {255, 256, 600, 1024}, more in thorough) "
-        "+ 30 `tie.formula` cases (source statements of the working precisions as text). "
+        "+ 39 `tie.formula` cases (source statements of the working precisions, stop tests and -- round 6 -- the zero-operand arms of the FBig +/- helpers of add.rs, as text). "
         "+ E1 (round 5): precisions 2^31, 2^32-1, 2^32, 2^32+k, 2^63, usize::MAX-k (k <= 130) of a Context and carried by an FBig "
         "on the exact shortcuts of all six operations (cheap there), precisions 63/64/65/128 on ordinary arguments, powi "
         "exponents +-2^31 .. +-2^128 (incl. 2^32+k, 2^64+k) on the bases 0, 1, -1 "
@@ -1259,7 +1310,10 @@ EXPLANATION = ("Proved in Lean for all inputs: (1) the entry-guard clauses (exp 
                "explicit step bound of the Maclaurin loop of exp_internal (scaled branch) under the two-sided hypothesis "
                "DlbTight on digits_lb (expLoop_step_bound, built on new lemmas that a C03 contract never crosses a power of "
                "the base and that same-sign FBig addition of operands of any length keeps a sum >= 1), checked per case by "
-               "the driver; error propagation through one stage of the loop and for its terms (expStage_error, expTerms_error).")
+               "the driver; error propagation through one stage of the loop and for its terms (expStage_error, expTerms_error). "
+               "(7) Round 6: the error of `sum += increase` (sum_add_error) and the accumulated error of the partial sum the "
+               "Maclaurin loop returns (expLoop_result_error: sum_{j<k} r^j/j! up to 2(k-2)+2 relative errors B^(1-w)); the "
+               "mirror of FBig +/- follows /repo 164990d (a zero operand: the other one rounded, fAddSub_zero_operand).")
 ASSUMPTIONS = ["the harness prints the value the library returned (pass 1 and pass 2 are the same deterministic computation)",
                "Mathlib's Real.exp / Real.log / Real.rpow are the functions the property speaks about"]
 LEVEL_TEXT = ("proof (partial) + certified exploration of the residual: machine-checked Lean 4 theorems for the exactness and "
@@ -1271,7 +1325,8 @@ LEVEL_TEXT = ("proof (partial) + certified exploration of the residual: machine-
               "powf) are mirrored statement by statement in the Lean model and tied to the code digit for digit on every "
               "budgeted case; proved about the mirror: fuel independence of the series loops, the value link of its powering stage "
               "to the powi error bound, the spelled-out working-precision formulas, an explicit step bound of the Maclaurin "
-              "loop (scaled branch, two-sided digits_lb hypothesis, checked per case) and the error of its terms.")
+              "loop (scaled branch, two-sided digits_lb hypothesis, checked per case), the error of its terms and the accumulated "
+              "rounding error of the partial sum it returns.")
 LEVEL_NOTE = ("Trusted: Lean kernel; axioms propext/Classical.choice/Quot.sound; Mathlib's definitions of exp/log/rpow; the "
               "harness output format; the generators (sampling) for the unproved residual. The numerical algorithms of "
               "exp_internal/ln_internal/iacoth/powf ARE mirrored and compared digit for digit (Tie B) and their precision formulas "
